@@ -139,6 +139,12 @@ def run(tier):
         firsts = FIRSTS if not quick else (['eolib', 'eolib.packet', 'eolib.protocol.net.packet'] + rng.sample(FIRSTS[1:], 6 if t['name'].startswith('mini-eo') else 3))
         firsts = list(dict.fromkeys(firsts))
         entries.append(dict(name=t['name'], tree=t['tree'], jobs=[dict(op='namespace', declared=declared(t['tree']), firsts=firsts, hashseed=rng.randrange(0, 1000))]))
+    # a root type using a type of net/client (every reference of the official protocol points the other way): known finding
+    up = empty_tree()
+    up['net/client']['structs'] += [{'name': 'Inner', 'body': [F('a', 'char')]}]
+    up['']['structs'] += [{'name': 'RootHolder', 'body': [F('i', 'Inner')]}]
+    up['net/client']['packets'] += [{'family': 'Init', 'action': 'Init', 'body': [F('x', 'char')]}]
+    entries.append(dict(name='descendant-reference', tree=up, jobs=[dict(op='namespace', declared=declared(up), firsts=['eolib', 'eolib.protocol.net.client', 'eolib.data'], hashseed=0)]))
     run_entries(C, runner, entries)
     nprobe = npaths = 0
     for e in entries:
@@ -159,7 +165,8 @@ def run(tier):
                                 key='F5-submodules-shadowed-by-star-imports')
                 for m in pr['name_mismatches'][:1]:
                     C.violation(f"tree '{e['name']}', first import {pr['first']}: public name {m['name']} defined in {m['defined_in']} is not that object in {m.get('looked_up_in')}: {m.get('got', m.get('why'))}",
-                                dict(unit='eolib package', input=dict(tree=e['name'], first_import=pr['first'], name=m['name'], xml=tree_xml(e['tree']))))
+                                dict(unit='eolib package', input=dict(tree=e['name'], first_import=pr['first'], name=m['name'], xml=tree_xml(e['tree']))),
+                                key='names-lost-when-a-type-references-a-descendant-directory' if e['name'] == 'descendant-reference' else None)
     C.stream('oracle.namespace-probes', nprobe, nprobe, sample=dict(tree=entries[0]['name'], firsts=entries[0]['jobs'][0]['firsts'][:4]))
     C.cov['distribution'] = dict(fresh_interpreters=nprobe, module_paths_checked=npaths, trees=len(entries))
     extra = getattr(sys.modules[__name__], 'extra_checks', None)
